@@ -53,6 +53,7 @@ type poolAnalysis struct {
 	sizePar  *ssa.Parameter
 	cbParams map[*ssa.Parameter]bool
 	jCount   int
+	out      sink
 	seqArgs  []ssa.Value // actuals for the sequential counterpart when there is no shortcut call
 	clamped  bool        // the spawn loop's bound is not the pool-size parameter itself
 }
@@ -288,7 +289,7 @@ func (k *checker) analysePool(fn *ssa.Function, out sink) {
 	p := k.c.P
 	name := p.FuncName(fn)
 	pos := p.Pos(fn.Pos())
-	pa := &poolAnalysis{k: k, fn: fn, ev: newEvaluator(), cbParams: map[*ssa.Parameter]bool{}}
+	pa := &poolAnalysis{k: k, fn: fn, ev: newEvaluator(), cbParams: map[*ssa.Parameter]bool{}, out: out}
 	pa.root = pa.ev.root(fn)
 	for _, prm := range fn.Params {
 		if _, ok := prm.Type().Underlying().(*types.Signature); ok {
@@ -784,6 +785,62 @@ func (pa *poolAnalysis) conc2(mc *ssa.MakeClosure, we *env, visits []visit, out 
 	if !addOK {
 		problems = append(problems, "no Add that dominates the go statement")
 	}
+	// CONC-7 Add/Done pairing: every Add(1) is followed, on every path through the iteration, by the go
+	// statement whose worker calls Done (an Add without its worker leaves Wait() blocked for ever); with
+	// Add(workers) up front every iteration must spawn.
+	pairing := []string{}
+	goB := pa.goInstr.Block()
+	ssau.AllInstrs(fn, func(in ssa.Instruction) {
+		ci, ok := in.(*ssa.Call)
+		if !ok {
+			return
+		}
+		if w, ok := isWG(ci, "Add"); !ok || w != wg {
+			return
+		}
+		if !pa.spawnL.Blocks[in.Block()] {
+			return
+		}
+		if in.Block() == goB {
+			if ssau.InstrIndex(in) < ssau.InstrIndex(pa.goInstr) {
+				return
+			}
+		}
+		// can the iteration end (back edge, loop exit, return) without passing the go statement?
+		avoid := map[*ssa.BasicBlock]bool{goB: true}
+		escapes := false
+		if ssau.ReachesAvoiding(in.Block(), pa.spawnL.Header, avoid) {
+			escapes = true
+		}
+		for _, b := range fn.Blocks {
+			if !pa.spawnL.Blocks[b] && b != fn.Recover && ssau.ReachesAvoiding(in.Block(), b, avoid) {
+				// leaving the loop without spawning (only through the header's exit edge is normal, and
+				// the header is reached via the back edge, which is checked above)
+				if !pa.spawnL.Header.Dominates(b) || reachesWithout(in.Block(), b, avoid, pa.spawnL.Header) {
+					escapes = true
+				}
+			}
+		}
+		if escapes {
+			pairing = append(pairing, "Add(1) at "+p.Pos(ssau.PosOf(in))+" is not followed by the go statement on every path (an iteration can end after Add without starting the worker that calls Done): Wait() never returns")
+		}
+	})
+	if addOK && len(pairing) == 0 {
+		for _, in := range addsBeforeLoop(fn, pa, wg) {
+			for _, latch := range pa.spawnL.Latch {
+				if !goB.Dominates(latch) {
+					pairing = append(pairing, "Add(workers) at "+p.Pos(ssau.PosOf(in))+" counts every iteration but an iteration can skip the go statement: Wait() never returns")
+				}
+			}
+		}
+	}
+	conc7 := name + ":add-done-pairing"
+	if len(pairing) > 0 {
+		pairing = dedup(pairing)
+		pa.out.violate("CONC-7", conc7, pos, pairing[0], pairing[1:]...)
+	} else if addOK && doneOK {
+		pa.out.hold("CONC-7", conc7, pos, "every Add is matched by exactly one spawned worker that calls Done on every path")
+	}
 	// Wait on every path from the spawn loop to a return / read of a result array
 	if len(waits) == 0 {
 		problems = append(problems, "no Wait(): the function returns while workers may still run")
@@ -1170,4 +1227,26 @@ func (pa *poolAnalysis) workersLowerBound(v ssa.Value, total Poly, depth int) (l
 		}
 	}
 	return unknown, false, "value " + e.str(v) + " has no known lower bound"
+}
+
+// reachesWithout: is there a path from a to b that avoids `avoid` and also never passes through via?
+func reachesWithout(a, b *ssa.BasicBlock, avoid map[*ssa.BasicBlock]bool, via *ssa.BasicBlock) bool {
+	av := map[*ssa.BasicBlock]bool{via: true}
+	for k := range avoid {
+		av[k] = true
+	}
+	return ssau.ReachesAvoiding(a, b, av)
+}
+
+// addsBeforeLoop: Add calls on wg outside the spawn loop that dominate the go statement.
+func addsBeforeLoop(fn *ssa.Function, pa *poolAnalysis, wg ssa.Value) []ssa.Instruction {
+	var out []ssa.Instruction
+	ssau.AllInstrs(fn, func(in ssa.Instruction) {
+		if ci, ok := in.(*ssa.Call); ok {
+			if w, ok := isWG(ci, "Add"); ok && w == wg && !pa.spawnL.Blocks[in.Block()] && ssau.Before(in, pa.goInstr) {
+				out = append(out, in)
+			}
+		}
+	})
+	return out
 }
